@@ -176,7 +176,7 @@ CLAIMS["C04"] = (
 # clauses added by later seed rounds (appended to the level text)
 EXTRA = {
     "C01": "The fusion pass builds no text writes out of value writes (C09.ONLY, shared). The suffix rule itself is `suffixes.iter().any(|s| key.ends_with(s))` on the registered name and the stored suffix as they are. The default escaper writes input bytes raw only one at a time behind its five-way switch, or as a run cleared by a search that stops at all five specials.",
-    "C02": "`~` always pushes a string built from both operands. `x in array` is <[Value]>::contains — element-wise `==` of Value. The fused LoadPath arm keeps the one-level-of-undefined rule (C09.FUSED, shared). `x[i]` and `x[a:b:c]` push only the Ok payload of the one typed lookup (Value::get_item / Value::slice) on the popped base, so its type errors are raised, never coerced to undefined.",
+    "C02": "`a.b` / `a?.b` push get_attr's answer or undefined, never the popped base. `~` always pushes a string built from both operands. `x in array` is <[Value]>::contains — element-wise `==` of Value. The fused LoadPath arm keeps the one-level-of-undefined rule (C09.FUSED, shared). `x[i]` and `x[a:b:c]` push only the Ok payload of the one typed lookup (Value::get_item / Value::slice) on the popped base, so its type errors are raised, never coerced to undefined.",
     "C03": "A plain variable read is get_value(name) on every path (load_name); the fusion pass rebuilds no jump (C09.ONLY, shared). `loop.X` is rewritten exactly under `is_in_loop()`, which is a pure membership test for an enclosing for loop (captures in between do not hide it).",
     "C04": "Template::new compiles the parser's whole node list (blocks nested in a child's filter sections are overrides). Every path through the RenderBlock arm to the next instruction runs the block (no block is stepped over); the current block name is set for the nested run and the enclosing one put back on every path.",
     "C07": "Both child VMs carry both depth counters (C05.REC/SAME, shared); resolve_index's casts and arithmetic are guarded (C14.ARITH/CAST, shared).",
@@ -184,13 +184,13 @@ EXTRA = {
     "C08": "The lexer's scanning loops and searches are the reviewed ones (C06.LEXPROG, shared). Only validated 2-byte delimiters reach the lexer (C06.DELIM, shared). The fusion pass moves text instructions along unchanged (C09.ONLY, shared). The three whitespace decisions of a raw block read the dash at their own position (provenance against skip_tag's after-the-name flag).",
     "C09": "The unfused LoadName resolves through get_value on every path (C03.SCOPE load_name, shared). Both fused arms resolve the path's first segment with State::get_value directly (like LoadName). The fused WritePath arm branches on the same two answers as WriteTop (VirtualMachine::autoescape_enabled(), Value::is_safe()).",
     "C10": "add_file answers Ok only after the insert, with the insert's previous value (what the undo log records).",
-    "C12": "report_target uses the executing VM's own template only on the name-equality edge. Span::expand copies the end triple from one span. Parser::new tokenizes exactly the source it was given and Template::new parses the string it stores (spans index the reported text). An error of a nested render (include, component) leaves the interpreter only through the place that adds the `called from` note.",
+    "C12": "A slice result carries the sliced value's own span. report_target uses the executing VM's own template only on the name-equality edge. Span::expand copies the end triple from one span. Parser::new tokenizes exactly the source it was given and Template::new parses the string it stores (spans index the reported text). An error of a nested render (include, component) leaves the interpreter only through the place that adds the `called from` note.",
     "C14": "String results are built through SmartString's reviewed constructors (C07.UTF8) and value/mod.rs has only reviewed panic sites (R-PANIC.value), both shared. The Slice / subscript arms add no route of their own around Value::slice / Value::get_item (C02.LOOKUP, shared).",
-    "C17": "round leaves the value unscaled only for precision 0. Type tests decide by kind only (integer = number and not float); first/last/nth are slice::first/last/get. Eight string filters are reviewed as std delegations (exact callee set, no loop of their own).",
+    "C17": "title / capitalize consume char case mappings whole. round leaves the value unscaled only for precision 0. Type tests decide by kind only (integer = number and not float); first/last/nth are slice::first/last/get. Eight string filters are reviewed as std delegations (exact callee set, no loop of their own).",
     "C19": "Integer keys sort numerically (C15.KEYNUM ord, shared). deserialize_enum hands the variant access Some(entry value) for the map encoding unconditionally.",
     "C11": "Tera.fallback_prefixes (an input of name resolution) changes only while no template is registered.",
-    "C15": "get_attr's small-map scan only stops on a match (dot access agrees with keyed lookup). KeyNumber::cmp compares same-sign payloads directly; no float->int cast outside the reviewed, range-guarded functions (C13.CONV, shared).",
-    "C20": "b64_encode is one Engine::encode call on the whole input.",
+    "C15": "The `get` filter is one lookup of Key::Str(key) with the key untouched. get_attr's small-map scan only stops on a match (dot access agrees with keyed lookup). KeyNumber::cmp compares same-sign payloads directly; no float->int cast outside the reviewed, range-guarded functions (C13.CONV, shared).",
+    "C20": "b64_decode returns the UTF-8 error of String::from_utf8 (nothing lossy). b64_encode is one Engine::encode call on the whole input.",
     "C13": "Every float->int cast is in a reviewed function behind two range tests. Two floats are compared with IEEE partial_cmp, NaNs placed by is_nan only where that is undecided; no comparison function looks at a float's bit pattern.",
     "C16": "Value::reverse answers with a value of the kind it was given (per arm; this rule found the bytes defect F7). first/last/nth are slice::first/last/get (C17.DELEG, shared). `group_by` creates a group only on the key-absent edge of a lookup (never overwrites one). `unique` keeps an element exactly when BTreeSet<Value> says it is new; no second membership structure takes part.",
     "C18": "VirtualMachine::render_to builds no Ok after an Err was seen. An Err of a nested render (include, component, block, super) always ends the instruction in a return, whatever its kind. A String-returning wrapper builds no result of its own before calling its `_to` sibling.",
